@@ -508,6 +508,28 @@ func constLenOfExpr(p *Prog, f *Fn, e ast.Expr, seen map[types.Object]bool) (int
 								good = true
 							}
 						}
+					} else if fn := p.Callee(f.Pkg, v); fn != nil && !seen[fn] {
+						// a function of the package every return of which has the same constant length
+						if h := p.FnOfObj(fn); h != nil && h.Short == f.Short && h.Lit == nil && h.Body() != nil {
+							seen[fn] = true
+							hk, hAny, hOK := -1, false, true
+							inspectShallow(h.Body(), func(y ast.Node) bool {
+								ret, ok := y.(*ast.ReturnStmt)
+								if !ok || len(ret.Results) != 1 {
+									return true
+								}
+								hAny = true
+								m, ok := constLenOfExpr(p, h, ret.Results[0], seen)
+								if !ok || (hk != -1 && hk != m) {
+									hOK = false
+								}
+								hk = m
+								return true
+							})
+							if hAny && hOK && hk >= 0 {
+								n, good = hk, true
+							}
+						}
 					}
 				}
 				if !good || (k != -1 && k != n) {
